@@ -12,14 +12,14 @@ ID = "C20"
 LEVEL = "exploration"
 RULE = (
     "complete enumeration of every ordered list of 1..5 SRV records over priority in {0,1,2} x weight in {0,1,2} (sum 9^k = 66,429 lists: all multisets in all permutations), distinct ports, targets "
-    "absolute or relative by position, x domain in {given, None} cycled, for lookup_dc and async_lookup_dc with dns.resolver.resolve / dns.asyncresolver.resolve replaced by a recorder returning a real "
+    "absolute or relative by position, x domain in {given, None, ''} cycled; 16-bit extremes of weight/priority {4095, 4096, 65535}, for lookup_dc and async_lookup_dc with dns.resolver.resolve / dns.asyncresolver.resolve replaced by a recorder returning a real "
     "dnspython Answer. Oracle: exactly one query, type SRV, name _ldap._tcp.dc._msdcs.<domain> (bare prefix with search enabled when no domain); result has minimal (priority, -weight); it is one of the "
     "records with port/weight/priority unchanged and target without trailing dot; sync == async. Plus the public API without `server` for 60 lists: the first connection goes to (chosen target, 135). "
     "Every list is distinct by construction; non-trivial = lists with >= 2 records."
 )
 ASSUME = ["dns.resolver.resolve / dns.asyncresolver.resolve are the library's DNS entry points (seam)"]
 BOUND = {"quick": "all 66,429 ordered lists, both flavours", "thorough": "same + full weight domain {0,1,65535} variant"}
-DOMAINS = ["domain.test", "sub.corp.example.com", "x", None]
+DOMAINS = ["domain.test", "sub.corp.example.com", "x", None, ""]  # "" must behave like None (bare prefix through the search list) in both flavours
 SID = "S-1-5-21-1-2-3-1104"
 
 
@@ -95,7 +95,9 @@ def records_for(pw: t.Sequence[t.Tuple[int, int]], variant: int = 0):
         return out
     for i, (p, w) in enumerate(pw):
         target = f"dc{i}.example.com." if (i + variant) % 2 == 0 else f"dc{i}.rel"
-        out.append((p, [0, 1, 2][w] if variant < 2 else [0, 1, 65535][w], 3890 + i, target))
+        wmap = [[0, 1, 2], [0, 1, 2], [0, 1, 65535], [0, 4095, 4096]][variant % 4] if variant < 4 else [0, 1, 2]
+        pmap = [0, 1, 2] if variant != 3 else [0, 10, 65535]
+        out.append((pmap[p], wmap[w], 3890 + i, target))
     return out
 
 
@@ -129,6 +131,8 @@ def judge(acc, pw, domain, variant, history=None) -> None:
             return
         qn, qt, search = rec.queries[0]
         expq = "_ldap._tcp.dc._msdcs" + (f".{domain}" if domain else "")
+        if not domain and qn.endswith("."):
+            acc.violate(f"query.absolute-name-without-domain.{flavour}", case, {"query": qn}, size=len(pw))
         if qn.rstrip(".") != expq or qt != "SRV":
             acc.violate(f"query.name.{flavour}", case, {"query": [qn, qt], "expected": expq}, size=len(pw))
         if not domain and not search:
@@ -155,6 +159,7 @@ def shards(tier: str, seed: int):
         out.append(["lists", 5, first])
     out.append(["api"])
     out.append(["samehost"])
+    out.append(["bigvalues"])
     for part in range(8):
         out.append(["pairs", part])
     if tier == "thorough":
@@ -174,20 +179,31 @@ def run_shard(shard, tier, seed, acc) -> None:
         it = itertools.product(PW, repeat=k) if first is None else ((PW[first],) + rest for rest in itertools.product(PW, repeat=k - 1))
         variant_base = 2 if shard[0] == "lists65535" else 0
         for pw in it:
-            judge(acc, pw, DOMAINS[n % 4], variant_base + (n // 4) % 2)
+            judge(acc, pw, DOMAINS[n % 5], variant_base + (n // 4) % 2)
             n += 1
         acc.ev(n)
         acc.nt_counted(n if k > 1 else 0)
         if k == 1:
             acc.nt_counted(0)
         acc.outcome("lists-judged", n)
-        acc.sample({"records(priority,weight)": [list(x) for x in pw], "domain": DOMAINS[(n - 1) % 4]})
+        acc.sample({"records(priority,weight)": [list(x) for x in pw], "domain": DOMAINS[(n - 1) % 5]})
+    elif shard[0] == "bigvalues":
+        n = 0
+        for k in (1, 2, 3):
+            for pw in itertools.product(PW, repeat=k):
+                for variant in (2, 3):
+                    judge(acc, pw, DOMAINS[n % 5], variant)
+                    n += 1
+        acc.ev(n)
+        acc.nt_counted(n)
+        acc.outcome("bigvalues-judged", n)
+        acc.sample({"weights": [0, 4095, 4096, 65535], "priorities": [0, 10, 65535], "lists": "all ordered lists of 1..3 records"})
     elif shard[0] == "samehost":
         n = 0
         for k in (2, 3):
             for pw in itertools.product(PW, repeat=k):
                 for variant in (4, 5, 6):
-                    judge(acc, pw, DOMAINS[n % 4], variant)
+                    judge(acc, pw, DOMAINS[n % 5], variant)
                     n += 1
         acc.ev(n)
         acc.nt_counted(n)
